@@ -128,13 +128,13 @@ class workq:
             }
 
         e = job.error
-        if e is None:
+        if not e:
+            # finishjob() treats an empty error like no error, too
             c["success"] += 1
+        elif e in ("timeout", "killed"):
+            c[e] += 1
         else:
-            if e in ("timeout", "killed"):
-                c[e] += 1
-            elif e:
-                c["error"] += 1
+            c["error"] += 1
 
     def handletimeouts(self):
         now = time.time()
